@@ -835,12 +835,20 @@ pub fn field_sweep(sch: &TypeSchema, f: &mut dyn FnMut(&[Val])) {
                     x[i] = Val::U32(!(1u32 << b));
                     f(&x);
                 }
+                for m in magic_u32() {
+                    x[i] = Val::U32(m);
+                    f(&x);
+                }
             }
             Kind::I32 => {
                 for b in 0..32 {
                     x[i] = Val::I32((1u32 << b) as i32);
                     f(&x);
                     x[i] = Val::I32(!(1u32 << b) as i32);
+                    f(&x);
+                }
+                for m in magic_u32() {
+                    x[i] = Val::I32(m as i32);
                     f(&x);
                 }
             }
@@ -864,7 +872,29 @@ pub fn field_sweep(sch: &TypeSchema, f: &mut dyn FnMut(&[Val])) {
                     f(&x);
                 }
             }
-            Kind::GwType | Kind::Gateway => {}
+            Kind::GwType => {}
+            Kind::Gateway => {
+                for a in magic_v6() {
+                    x[i] = Val::Gateway(Gw::V6(B(a.to_vec())));
+                    f(&x);
+                }
+                for m in magic_u32() {
+                    x[i] = Val::Gateway(Gw::V4(m.to_be_bytes()));
+                    f(&x);
+                }
+                for v in size_ladder(Kind::Name(Comp::Never)) {
+                    if let Val::Name(n) = v {
+                        x[i] = Val::Gateway(Gw::Domain(n));
+                        f(&x);
+                    }
+                }
+            }
+        }
+        if let Kind::Fixed(16) = k {
+            for a in magic_v6() {
+                x[i] = Val::Fixed(B(a.to_vec()));
+                f(&x);
+            }
         }
     }
 }
@@ -878,6 +908,9 @@ pub fn size_values(k: Kind) -> Vec<Val> {
         Kind::Str => {
             for n in 0..=255usize {
                 out.push(Val::Str(bytes_n(n, n as u8)));
+            }
+            for s in dictionary_strings() {
+                out.push(Val::Str(b(s.as_bytes())));
             }
         }
         Kind::Tail => {
@@ -919,6 +952,11 @@ pub fn size_values(k: Kind) -> Vec<Val> {
             for l in [31usize, 32, 33, 63, 64, 65, 127, 128, 129, 253, 254] {
                 out.push(Val::Strs(vec![bytes_n(l, 1), bytes_n(l, 2), bytes_n(255 - l, 3)]));
             }
+            let d = dictionary_strings();
+            for (i, s) in d.iter().enumerate() {
+                out.push(Val::Strs(vec![b(s.as_bytes())]));
+                out.push(Val::Strs(vec![b(d[(i + 7) % d.len()].as_bytes()), b(s.as_bytes()), b(d[(i + 3) % d.len()].as_bytes())]));
+            }
         }
         Kind::Params => {
             for n in 0..=24usize {
@@ -927,8 +965,27 @@ pub fn size_values(k: Kind) -> Vec<Val> {
             for key in [5u16, 6, 7, 8, 100, 255, 256, 32768, 65279, 65280] {
                 out.push(Val::Params(vec![(key, b(&[1, 2]))]));
             }
+            // values whose inner lists are not in increasing order, repeated, or oddly sized
+            for v in [&[0u8, 4, 0, 1][..], &[0, 6, 0, 4, 0, 1], &[0, 1, 0, 1], &[0, 3, 0, 1, 0, 4, 0], &[0xff, 0xff, 0, 0]] {
+                out.push(Val::Params(vec![(0, b(v)), (1, b(b"\x02h2")), (3, b(&[1, 187])), (4, b(&[10, 0, 0, 9, 10, 0, 0, 1]))]));
+            }
+            out.push(Val::Params(vec![(1, b(b"\x08http/1.1\x02h2\x02H3")), (6, B([magic_v6()[3], magic_v6()[2]].concat()))]));
+            out.push(Val::Params(vec![(4, b(&[255, 255, 255, 255, 0, 0, 0, 0, 127, 0, 0, 1]))]));
             for l in (0..=70usize).chain([127, 128, 255, 256, 257, 511, 512, 1000]) {
                 out.push(Val::Params(vec![(1, bytes_n(l, l as u8)), (7, bytes_n(3, 1))]));
+            }
+        }
+        Kind::Gateway => {
+            for a in magic_v6() {
+                out.push(Val::Gateway(Gw::V6(B(a.to_vec()))));
+            }
+            for m in [0u32, 0x7f00_0001, 0xe000_00fb, 0xffff_ffff, 0xa9fe_0001] {
+                out.push(Val::Gateway(Gw::V4(m.to_be_bytes())));
+            }
+        }
+        Kind::Fixed(16) => {
+            for a in magic_v6() {
+                out.push(Val::Fixed(B(a.to_vec())));
             }
         }
         Kind::Windows => {
@@ -1004,6 +1061,94 @@ pub fn dictionary_names(max_labels: usize) -> Vec<RefName> {
         out.push(RefName::txt(full.trim_end_matches('.')));
     }
     out
+}
+
+/// Values that can be held in memory but are not in RFC order (NSEC windows out of order): the
+/// writers normalise them; both serialisations must agree on the result. Not for checks that
+/// compare with the reference packet itself.
+pub fn noncanonical_packets() -> Vec<RefPacket> {
+    let mut out = Vec::new();
+    let orders: Vec<Vec<u8>> = vec![vec![1, 0], vec![2, 0, 1], vec![0, 255, 1], vec![255, 254, 3, 0], vec![5, 4]];
+    for order in orders {
+        for next in ["host.local", "local", "next.example.com", "a.b.c.local"] {
+            for owner in ["host.local", "example.com"] {
+                let mut p = RefPacket { id: 0x6e5c, flags: F_QR | F_AA, ..Default::default() };
+                p.questions.push(RefQ { name: RefName::txt(owner), qtype: 47, qclass: 1, unicast: false });
+                let wins: Vec<(u8, B)> = order.iter().map(|w| (*w, B(vec![0x40 >> (*w % 3), 0x01]))).collect();
+                p.answers.push(RefRR { name: RefName::txt(owner), class: 1, cache_flush: true, ttl: 120, rdata: RefRData::Typed { code: 47, vals: vec![Val::Name(RefName::txt(next)), Val::Windows(wins)] } });
+                p.additional.push(RefRR { name: RefName::txt(next), class: 1, cache_flush: false, ttl: 120, rdata: RefRData::Typed { code: 1, vals: vec![Val::U32(0x0a000001)] } });
+                out.push(p);
+            }
+        }
+    }
+    out
+}
+
+/// Every ordered pair of record types (base records, with shared names so that compression has
+/// something to do), in three section shapes; and triples (a, b, a) in one section.
+pub fn type_pair_packets() -> Vec<RefPacket> {
+    let base: Vec<RefRR> = SCHEMAS.iter().map(base_rr).collect();
+    let mut out = Vec::new();
+    for (ia, a) in base.iter().enumerate() {
+        for (ib, b) in base.iter().enumerate() {
+            let mut p = RefPacket { id: 0x7a1b, flags: F_QR | F_AA, ..Default::default() };
+            p.questions.push(RefQ { name: a.name.clone(), qtype: a.rdata.code(), qclass: 1, unicast: false });
+            match (ia + ib) % 3 {
+                0 => {
+                    p.answers.push(a.clone());
+                    p.answers.push(b.clone());
+                    p.answers.push(a.clone());
+                }
+                1 => {
+                    p.answers.push(a.clone());
+                    p.authority.push(b.clone());
+                    p.additional.push(a.clone());
+                }
+                _ => {
+                    p.additional.push(a.clone());
+                    p.additional.push(b.clone());
+                }
+            }
+            out.push(p);
+        }
+    }
+    out
+}
+
+/// Text that software gives a meaning to, in several letter cases: CAA tags, ALPN ids, DNS-SD
+/// keys, NAPTR flags and services, SPF, HINFO values.
+pub fn dictionary_strings() -> Vec<&'static str> {
+    vec![
+        "issue", "Issue", "ISSUE", "issuewild", "IssueWild", "ISSUEWILD", "iodef", "ioDef", "IODEF", "contactemail", "h2", "H2", "h3", "http/1.1", "HTTP/1.1", "dot", "txtvers", "TxtVers", "TXTVERS", "txtvers=1", "TXTVERS=1", "path", "Path", "PATH=/", "path=/",
+        "u", "U", "s", "S", "a", "A", "p", "P", "E2U+sip", "e2u+SIP", "SIP+D2U", "sip+d2u", "v=spf1 -all", "V=SPF1 -ALL", "Intel", "INTEL", "Linux", "LINUX", "local", "LOCAL", "true", "TRUE", "0", "1", "\"quoted\"", "a=b=c", "=", ";", "k;v",
+    ]
+}
+
+/// IPv6 addresses with a conventional meaning (unspecified, loopback, IPv4-mapped and
+/// -compatible, NAT64, link-local, multicast, documentation, all ones).
+pub fn magic_v6() -> Vec<[u8; 16]> {
+    let p = |s: &str| s.parse::<std::net::Ipv6Addr>().unwrap().octets();
+    vec![
+        p("::"), p("::1"), p("::ffff:1.2.3.4"), p("::ffff:0.0.0.0"), p("::ffff:255.255.255.255"), p("::1.2.3.4"), p("64:ff9b::c000:221"), p("fe80::1"), p("febf::1"), p("ff02::fb"), p("ff02::1"), p("2001:db8::1"), p("2002:c000:221::1"), p("fc00::1"),
+        p("ffff:ffff:ffff:ffff:ffff:ffff:ffff:ffff"), p("::ffff:0:0:1"), p("0:0:0:0:0:fffe::1"),
+    ]
+}
+
+/// 32-bit values that code tends to special-case: common TTLs and timers, powers of ten and two
+/// and their neighbours, well-known addresses.
+pub fn magic_u32() -> Vec<u32> {
+    let mut v: Vec<u32> = vec![
+        10, 59, 60, 61, 75, 100, 119, 120, 121, 255, 256, 300, 1000, 1800, 3599, 3600, 3601, 4500, 7200, 10000, 65535, 65536, 86399, 86400, 86401, 604800, 2419200, 31536000, 0x7fff_fffe, 0x7fff_ffff, 0x8000_0000, 0x8000_0001,
+        0xffff_fffe, 0x7f00_0001, 0xe000_00fb, 0xa9fe_0001, 0xc0a8_0001, 0x0a00_0001, 0xac10_0001, 0xffff_ff00, 0x0100_007f,
+    ];
+    for k in [8u32, 15, 16, 23, 24, 31] {
+        v.push((1u32 << k) - 1);
+        v.push(1u32 << k);
+        v.push((1u32 << k) + 1);
+    }
+    v.sort();
+    v.dedup();
+    v
 }
 
 /// A reduced size ladder for products of two size parameters.
@@ -1096,6 +1241,42 @@ pub fn size_sweep_packets() -> Vec<RefPacket> {
         if child.is_wire_valid() {
             p.additional.push(RefRR { name: child, class: 1, cache_flush: false, ttl: 7, rdata: RefRData::Typed { code: 1, vals: vec![Val::U32(0x0a000002)] } });
         }
+        out.push(p);
+    }
+    out.extend(type_pair_packets());
+    // every name-bearing type under every class (and with the cache-flush bit), names repeated so
+    // that compression has work to do whatever the class
+    for sch in SCHEMAS {
+        if !sch.fields.iter().any(|(_, k)| matches!(k, Kind::Name(_))) {
+            continue;
+        }
+        for class in [1u16, 2, 3, 4, 254] {
+            for cf in [false, true] {
+                let n = RefName::txt("host.example.com");
+                let mut p = RefPacket { id: 0x5127, flags: F_QR | F_AA, ..Default::default() };
+                p.questions.push(RefQ { name: n.clone(), qtype: sch.code, qclass: if class == 254 { 255 } else { class }, unicast: false });
+                p.answers.push(RefRR { name: n.clone(), class, cache_flush: cf, ttl: 300, rdata: rdata_with_names(sch.code, &[n.clone(), RefName::txt("ns.host.example.com")]) });
+                p.answers.push(RefRR { name: RefName::txt("ns.host.example.com"), class, cache_flush: cf, ttl: 300, rdata: rdata_with_names(sch.code, &[n.clone()]) });
+                p.additional.push(RefRR { name: n.clone(), class, cache_flush: false, ttl: 300, rdata: RefRData::Typed { code: 1, vals: vec![Val::U32(0x0a000001)] } });
+                out.push(p);
+            }
+        }
+    }
+    // every magic 32-bit value as TTL (plain and with the cache-flush bit) and as an A address / SOA timer
+    for (j, m) in magic_u32().into_iter().enumerate() {
+        let mut p = RefPacket { id: 0x5126, flags: F_QR, ..Default::default() };
+        p.answers.push(RefRR { name: RefName::txt("ttl.example.com"), class: 1, cache_flush: j % 2 == 1, ttl: m, rdata: RefRData::Typed { code: 1, vals: vec![Val::U32(m)] } });
+        let soa = schema::schema(6).unwrap();
+        let mut sv = default_vals(soa);
+        for v in sv.iter_mut() {
+            if let Val::U32(x) = v {
+                *x = m;
+            }
+            if let Val::I32(x) = v {
+                *x = m as i32;
+            }
+        }
+        p.authority.push(RefRR { name: RefName::txt("example.com"), class: 1, cache_flush: false, ttl: m ^ 1, rdata: RefRData::Typed { code: 6, vals: sv } });
         out.push(p);
     }
     // many distinct names, each used again later
